@@ -141,7 +141,9 @@ func alphabet(quick bool, root string) (ops []Op) {
 	// it takes an answer; the quick tier uses the short representatives.
 	ops = append(ops, Op{Root: root, Kind: "OFFB"}, Op{Root: root, Kind: "OFFA"})
 	for _, a := range answers {
-		if quick && !in(repsShort, a) {
+		// "empty" is in the quick tier as well: the checksum of an empty list
+		// is the value a list that was switched off is reset to.
+		if quick && !in(repsShort, a) && a != "empty" {
 			continue
 		}
 		ops = append(ops, Op{Root: root, Kind: "ONB", B: a}, Op{Root: root, Kind: "ONA", A: a})
@@ -811,7 +813,11 @@ func (w *world) step(op Op, hist []Op) (outcome string, nontrivial bool, vkey, v
 				results[id] = "changed"
 				changedAny = true
 				if !qf.Exists || qf.Bytes != norm {
-					return fail("success-wrong-file:"+sideOf(id)+":"+at.answer,
+					k := "success-wrong-file:" + sideOf(id) + ":" + at.answer
+					if id == enabling {
+						k += ":after-switch-on"
+					}
+					return fail(k,
 						fmt.Sprintf("list %d was refreshed successfully (%s); data/filters/%d.txt must hold the normal form %q, it holds exists=%v %q", id, at.answer, id, norm, qf.Exists, qf.Bytes), &post)
 				}
 				if post.API[id] != cnt {
